@@ -954,21 +954,28 @@ _JSON_NO = [b'x', b'hello world', b'{', b'[', b'}', b']', b'{]', b'[}', b'}{', b
             b'plain [text] x', b'x{"a": 1}', b'<!doctype html><html>{}</html>', b'\xff\xfe']
 
 
-def _mime_tests(cs):
-    """String constants a path condition list pins a value to: ``x == 'c'`` / ``'c' == x`` / ``x in ('c',)`` true."""
+def _mime_tests(cs, fold=None):
+    """String constants a path condition list pins a value to: ``x == 'c'`` / ``'c' == x`` / ``x in ('c',)`` true
+    (``fold`` resolves named constants)."""
+    def const(a):
+        if isinstance(a, ast.Constant):
+            return a.value if isinstance(a.value, str) else None
+        if fold is not None and isinstance(a, (ast.Name, ast.Attribute)):
+            v = fold(a)
+            return v if isinstance(v, str) else None
+        return None
     out = []
     for t, p in cs:
         if not (isinstance(t, ast.Compare) and len(t.ops) == 1):
             continue
         l, r, o = t.left, t.comparators[0], t.ops[0]
         if (isinstance(o, ast.Eq) and p is True) or (isinstance(o, ast.NotEq) and p is False):
-            for a in (l, r):
-                if isinstance(a, ast.Constant) and isinstance(a.value, str):
-                    out.append(a.value)
+            vs = [const(a) for a in (l, r)]
+            if (vs[0] is None) != (vs[1] is None):
+                out.append(vs[0] if vs[0] is not None else vs[1])
         elif (isinstance(o, ast.In) and p is True) or (isinstance(o, ast.NotIn) and p is False):
-            if isinstance(r, (ast.Tuple, ast.List, ast.Set)) and len(r.elts) == 1 and isinstance(r.elts[0], ast.Constant) \
-                    and isinstance(r.elts[0].value, str):
-                out.append(r.elts[0].value)
+            if isinstance(r, (ast.Tuple, ast.List, ast.Set)) and len(r.elts) == 1 and const(r.elts[0]) is not None:
+                out.append(const(r.elts[0]))
     return out
 
 
@@ -1210,7 +1217,7 @@ def run(rep):
         if isinstance(v, ast.Call) and renderer_of(v) in ('json_render', 'tabular_render'):
             n_branches += 1
             cs = conds(sr, r)
-            mimes = _mime_tests(cs)
+            mimes = _mime_tests(cs, lambda a: _fold_const(repo, sr, a))
             ok = len(set(mimes)) == 1 and want_map.get(mimes[0]) == renderer_of(v)
             if ok:
                 branch_mimes.add(mimes[0])
